@@ -80,6 +80,7 @@ type Sched struct {
 	FreeSwitchCost int
 	resets         []func()
 	lastID         int
+	faults         int
 }
 
 var cur *Sched
@@ -88,6 +89,27 @@ var cur *Sched
 // run right after the release, which exposes work done after a too-early unlock. Harnesses switch
 // it on where the extra points are affordable.
 var ReleasePoints bool
+
+// FaultBudget is the number of environment faults (a failed read, a failed accept) the explorer may
+// inject per execution; each injected fault costs one deviation. 0 = the environment never fails.
+var FaultBudget int
+
+// Fault is called by the simulated network at a point where the real environment could fail; it
+// reports whether the explorer decided to inject the fault here.
+func Fault(desc string) bool {
+	s := cur
+	if s == nil || s.aborted || FaultBudget <= 0 || s.faults >= FaultBudget {
+		return false
+	}
+	if s.ch.ChooseCost(2, "fault:"+desc, []int{0, 1}) == 1 {
+		s.faults++
+		if s.TraceOn {
+			s.out.Trace = append(s.out.Trace, "FAULT:"+desc)
+		}
+		return true
+	}
+	return false
+}
 
 // ReleasePoint is called by the shims after a release.
 func ReleasePoint(desc string) {
